@@ -423,8 +423,46 @@ def make_enabled(kind, nslots, cls, with_flood):
     return enabled
 
 
+def run_scripted(res):
+    """Scripted histories with the plotting helpers of Jumps between cached calls: a helper that receives a cached
+    value must not change what the cached methods return afterwards (compared with an uncached recomputation)."""
+    import contextlib
+    import io
+
+    for variant in (0, 1):
+        for l in [lru for _, lru in all_caches('real')]:
+            l.cache_clear()
+        j = new_real('J', variant, 0, {})
+        plots = [n for n in dir(type(j)) if n.startswith('plot_')]
+        script = ['matrix', 'counter'] + plots + ['matrix', 'counter', 'jump_diffusivity', 'to_graph']
+        for name in script:
+            meth = getattr(type(j), name)
+            res.evals += 1
+            res.transitions += 1
+            try:
+                if name.startswith('plot_'):
+                    with contextlib.redirect_stdout(io.StringIO()):
+                        try:
+                            meth(j)
+                        except Exception:  # noqa: BLE001  (a plot that cannot be drawn here is not this property's business)
+                            res.stats['plot_helpers_failed'] += 1
+                    continue
+                args = (3,) if name == 'jump_diffusivity' else ()
+                got = meth(j, *args)
+                fresh = meth.__wrapped__(j, *args)
+                if not deep_equal(got, fresh):
+                    res.violation('cached-result-differs-from-uncached', {'kind': 'scripted', 'variant': variant, 'script': script}, f'Jumps.{name} after {script[: script.index(name) + 1]}: cached={str(got)[:100]} uncached={str(fresh)[:100]}')
+                    break
+            except Exception as e:  # noqa: BLE001
+                res.violation(f'scripted-raise-{type(e).__name__}', {'kind': 'scripted', 'variant': variant, 'script': script}, f'{name}: {e}')
+                break
+        res.states += len(script)
+        res.outcome(('scripted', variant, len(plots)))
+    res.sample({'scripted_history_with_plot_helpers': script})
+
+
 def shards(tier, seed):
-    out = []
+    out = [{'kind': 'scripted'}]
     _TIER['tier'] = tier
     _CALLS.clear()
     d = DEPTHS[tier]
@@ -442,6 +480,9 @@ def shards(tier, seed):
 def run_shard(shard) -> Result:
     res = Result()
     kind = shard['kind']
+    if kind == 'scripted':
+        run_scripted(res)
+        return res
     cls = shard.get('cls')
     if _TIER.get('tier') != shard.get('tier', _TIER.get('tier')):
         _TIER['tier'] = shard.get('tier')
@@ -507,6 +548,10 @@ def finalize(total, tier):
 
 
 def replay(case):
+    if case.get('kind') == 'scripted':
+        r = Result()
+        run_scripted(r)
+        return [{'kind': v['kind'], 'detail': v['detail']} for v in r.viols]
     build, _ = make_build(case['kind'], case['nslots'], case.get('cls'))
     w = build(tuple(tuple(e) for e in case['history']))
     return [{'kind': k, 'detail': d} for k, d, _ in w.errors]
